@@ -86,7 +86,7 @@ def tokDouble (tok : Bytes) : Dbl :=
       if c = 0x65 ∨ c = 0x45 then
         let sl := signLen r
         let eneg := match r with | d :: _ => d == 0x2D | [] => false
-        let ds := (r.drop sl).take (digitsLen (r.drop sl))
+        let ds := ((r.drop sl).take (digitsLen (r.drop sl))).dropWhile (· == 0x30)
         -- clamp huge exponents (the value is 0 or inf long before)
         let v : Nat := if ds.length > 6 then 1000000 else digitsVal ds
         if eneg then -(v : Int) else (v : Int)
